@@ -71,7 +71,7 @@ def check_C13(c):
         else:
             mk = dict(model=c.rng.choice(['default', 'amr', 'noop', 'miniamr']))
         jobs.append(('tr_canontree', dict(node=jn, meta=meta, **mk)))
-    traces = pmake(jobs)
+    traces = pmake(jobs, optimized_share=0.02)
     c.judge('J_Model', traces, 'roles', nontrivial=lambda t: t['kind'] == 'canontree' or len(t['role']) > 1)
     c.rule = ('role = base + k x "-of", k in 0..4, bases from model-defined roles (literal and pattern), roles ending in -of by '
               'definition, the empty role, roles without colon, free names x models {default, AMR, no-op, MiniAMR, custom tables with '
